@@ -19,7 +19,7 @@ from vp.symx import pick, canon, NoTracing
 
 MODEL = "/data/arch.yml"
 CACHE_DIR = "/home/u/.osaca/cache"
-ABSENT, EMPTY, HEADER, MID, LASTBYTE, COMPLETE, STALE, HEADERONLY = range(8)     # HEADERONLY: complete pickle of a header-only (lazy) load
+ABSENT, EMPTY, HEADER, MID, LASTBYTE, COMPLETE, STALE, NEWER, HEADERONLY = range(9)     # STALE / NEWER: written for an older / a newer internal format; HEADERONLY: complete pickle of a header-only (lazy) load
 TRUNCATED = (EMPTY, HEADER, MID, LASTBYTE)
 
 
@@ -183,6 +183,9 @@ def install(fs):
             d = fresh(made_for, full=state != HEADERONLY)
             if state == STALE:
                 d["internal_version"] = MachineModel.INTERNAL_VERSION - 1
+            if state == NEWER:
+                d["internal_version"] = MachineModel.INTERNAL_VERSION + 1
+                d["content"] = made_for + 1000          # another format: its data must not be used as is
             return d
 
         @staticmethod
@@ -291,15 +294,15 @@ def _clean(d):
 
 def one_run(c_now: int, c_comp: int, c_home: int, st_comp: int, st_home: int, writable: bool, home_ok: bool, warm_runtime: bool, lazy: bool, dotted: bool) -> bool:
     """
-    pre: 0 <= st_comp < 7 and 0 <= st_home < 7
+    pre: 0 <= st_comp < 8 and 0 <= st_home < 8
     post: _
     """
     # inductive step: ONE construction from an arbitrary file-system state satisfying the invariant
-    lo, hi = shard(49)
-    if not (lo <= st_comp * 7 + st_home < hi):
+    lo, hi = shard(64)
+    if not (lo <= st_comp * 8 + st_home < hi):
         return True
     pat = canon([c_now, c_comp, c_home])
-    sc, sh = pick(st_comp, 7), pick(st_home, 7)
+    sc, sh = pick(st_comp, 8), pick(st_home, 8)
     feat = {"truncated_slot_for_current_content": (sc in TRUNCATED and pat[1] == pat[0]) or (sh in TRUNCATED and pat[2] == pat[0]), "lazy": bool(lazy)}
     st = kf_state(feat)
     if st == "skip":
@@ -590,7 +593,7 @@ def race4(s1: int, s2: int, s3: int, s4: int, ro: bool) -> bool:
 
 
 CELLS = {
-    "one_run": {"fn": one_run, "bound": "one construction from every file-system state: content ids by equality pattern (current / companion slot's / home slot's), 7 slot states each, data dir writable or not, home creatable or not, stale in-process cache entry, lazy or full load",
+    "one_run": {"fn": one_run, "bound": "one construction from every file-system state: content ids by equality pattern (current / companion slot's / home slot's), 8 slot states each (absent, 4 truncation classes, complete, older format, newer format), data dir writable or not, home creatable or not, stale in-process cache entry, lazy or full load",
                 "budget": {"quick": 170, "thorough": 600}, "shards": 16},
     "history": {"fn": history, "bound": "all 3-event histories over {run, run crashing in the cache write (0 bytes / mid-stream / last byte missing), file edited, racing writer mid-write, lazy run, data dir becomes read-only} followed by a run",
                 "budget": {"quick": 170, "thorough": 600}, "shards": 16},
